@@ -41,6 +41,21 @@ CHECKS = {
          "Every history up to depth 3 (thorough 4) over 46 operations (new/set/delete/batched create, modify, rename, delete; three logins, three passwords) is replayed through an administrator's connection; afterwards login attempts for every login x password, the list-users reply, the independently parsed accounts directory and a freshly loaded account manager must equal the model; E-SCHED checks that memory and disk agree after two concurrent edits.",
          "Renames only onto unused logins; small login/password alphabets.",
          "DESIGN.md §5 C15"),
+ "C12": ("model_checking",
+         "explicit-state breadth-first search over chat histories replayed on the real server, deliveries compared with a reference chat model after every operation",
+         "Every history up to depth 4 (thorough 5) over 44 operations of three clients with (read,send) privileges (1,1),(0,1),(1,0) and name lengths 1/13/14, starting from the all-connected state: after the last operation the multiset of (recipient, transaction) deliveries — public lines, private lines, invitations, join/leave/subject notices, decline notices — must equal the model's, texts in protocol format cut at 8192 bytes, and nothing may reach a user who left or declined, or an outsider without chat privileges.",
+         "At most two private chats; operations address existing users/chats; default schedule.",
+         "DESIGN.md §5 C12"),
+ "C17": ("model_checking",
+         "explicit-state breadth-first search over ban histories under a virtual clock, door behaviour compared with a reference ban model; schedule exploration of two concurrent bans followed by a restart",
+         "Every history up to depth 5 (thorough 6) over 15 operations (kick with no/temporary/permanent ban, reconnects from the banned address, the same host on another port and two look-alike addresses with right/wrong password, restart from the files, clock advances): the kicked user's connection closes and others are told; a banned address gets handshake reply plus one ban notice and no login processing inside the window / forever, also after restart; everybody else is served; expiry re-admits. The canonical state includes the implementation's own ban table so that divergent states are expanded, not merged.",
+         "Instants within 3 s of expiry are not probed; 4 addresses.",
+         "DESIGN.md §5 C17"),
+ "C18": ("model_checking",
+         "explicit-state breadth-first search over threaded-news histories against a reference news model with a strict reference decoder; schedule exploration of two concurrent posts followed by a reload",
+         "Every history up to depth 4 (thorough 5) over 22 operations (create bundle/category, post with 1- and 255-byte titles/posters and bodies up to 65,000 bytes, reply, delete article, delete item, reload): get-article for every present id, the article list decoded strictly (ids once, in order, sizes and flavors), category listings of every path and a second store loaded from the YAML file must equal the model; new ids unused, parent recorded, linked after the previous newest.",
+         "Fresh names for new groupings; links of remaining articles after a deletion are unspecified and not compared.",
+         "DESIGN.md §5 C18"),
 }
 NOT_YET = "check not built yet in this session (see DESIGN.md §11 build order)"
 
